@@ -26,7 +26,7 @@ MOD_EXPECT = {'lpv_mod.py:mf': [[1, 1], [2, 4], [3, 3], [4, 1]], 'lpv_mod.py:mg'
 def cases(ctx):
     out = []
     fsets = [[], ['f'], ['g'], ['f', 'g'], ['K.meth'], ['f', 'K.meth', 'h']]
-    msets = [[], ['lpv_mod']]
+    msets = [[], ['lpv_mod'], ['lpv_pkg.sub'], ['lpv_mod', 'lpv_pkg.sub']]
     optsets = [[], ['-r'], ['-r', '-s'], ['-r', '-u 1e-3'], ['-s'], ['-r', '-s', '-u 1e-6']]
     kinds = ['none', 'exit', 'kbint', 'error']
     allc = [dict(funcs=f, mods=m, opts=o, stmt_kind=k, pre_profile=p, D=d, T=t)
@@ -60,7 +60,7 @@ def oracle(c, r):
     want_builtins = 'same' if c['pre_profile'] else 'absent'
     if r['builtins_after'] != want_builtins:
         bad.append({'builtins.profile_after': r['builtins_after'], 'expected': want_builtins})
-    want_names = ['lpv_mod', 'res', 'res2', 'res3'] + (['after'] if kind == 'none' else [])
+    want_names = ['lpv_mod', 'lpv_pkg', 'res', 'res2', 'res3', 'res4'] + (['after'] if kind == 'none' else [])
     if sorted(r['new_names']) != sorted(want_names):
         bad.append({'user_namespace_new_names': r['new_names'], 'expected': sorted(want_names)})
     if r['trace_after']:
@@ -72,12 +72,14 @@ def oracle(c, r):
         want = {}
         for f in c['funcs']:
             want[EXPECT[f][0]] = EXPECT[f][1]
-        if c['mods']:
+        if 'lpv_mod' in c['mods']:
             want.update(MOD_EXPECT)
+        if 'lpv_pkg.sub' in c['mods']:
+            want.update({'sub.py:pinner': [[1, 1], [2, 1]]})
         got = {k: v for k, v in r['timings'].items() if v}
         if got != want:
             bad.append({'statistics': got, 'expected_exactly': want})
-        wantreg = sorted([f for f in c['funcs']] + (['mf', 'mg'] if c['mods'] else []))
+        wantreg = sorted([f for f in c['funcs']] + (['mf', 'mg'] if 'lpv_mod' in c['mods'] else []) + (['pinner'] if 'lpv_pkg.sub' in c['mods'] else []))
         if sorted(r['registered']) != wantreg:
             bad.append({'registered': r['registered'], 'named': wantreg})
         if r['enable_count_after'] != 0:
